@@ -387,14 +387,16 @@ func runC07Transport(e *Env) {
 	swallow := e.P(2) == 1
 	var ferr error
 	netErr := false
-	switch e.P(3) {
+	switch e.P(4) {
 	case 0:
 		ferr = errors.New("injected transport failure")
 	case 1:
 		ferr = simnet.ErrReset
 		netErr = true
-	default:
+	case 2:
 		ferr = io.ErrUnexpectedEOF
+	default:
+		ferr = simnet.ErrTimeout // a timeout-class net.Error (e.g. an expired write deadline)
 	}
 	e.Describe("channel=%s transport fault: %s call #%d fails with %q; exception handler swallows=%v", cc, []string{"Write/Writev", "Flush", "Read"}[what], k, ferr, swallow)
 	e.Count("point:transport/"+[]string{"write", "flush", "read"}[what], 1)
@@ -465,7 +467,10 @@ func runC07Burst(e *Env) {
 	what := e.P(2) // 0 write, 1 flush
 	k := 1 + e.P(4)
 	once := e.P(2) == 0
-	ferr := errors.New("injected transient transport failure")
+	var ferr error = errors.New("injected transient transport failure")
+	if e.P(3) == 2 {
+		ferr = simnet.ErrTimeout
+	}
 	writers := 1 + e.P(2)
 	per := q/2 + 2 + e.P(3)
 	e.Describe("channel=%s burst: %d writers x %d messages behind a stalled sender; transport %s call #%d fails (only that call: %v)", cc, writers, per, []string{"Writev", "Flush"}[what], k, once)
